@@ -533,8 +533,12 @@ def emit_fn(u, file, nm, block):
     #      still verifies, and reported as LOST (the check is then undecided for it unless a bounded twin refutes it).
     real_closures = it["closures"]
     real_closures, perm = closures_in_contract_order(file, nm, real_closures, b)
+    vanished = [k for k, rc_ in enumerate(real_closures) if rc_ is None]
+    if vanished:
+        closures = {k: v for k, v in closures.items() if k not in vanished}
+        u.edits.append("%s::%s: closure(s) %s of the contract no longer exist in the source (all remaining closures are unchanged); their contracts are dropped, the code that replaced them is verified inline" % (file, nm, ", ".join("#%d" % k for k in vanished)))
     if perm:
-        u.edits.append("%s::%s: closures appear in a different order than when the contract was written; contracts applied by content (%s)" % (file, nm, ", ".join("#%d->source #%d" % p_ for p_ in perm)))
+        u.edits.append("%s::%s: closures appear in a different order than when the contract was written; contracts applied by content (%s)" % (file, nm, ", ".join("#%d->source #%d" % p_ for p_ in perm if p_[1] >= 0)))
     lost = None
     expected_closures = None
     for l in block:
@@ -549,7 +553,7 @@ def emit_fn(u, file, nm, block):
         elif c["let"] is not None and real_closures[ordn]["let_name"] is None:
             # the contract was written for a closure bound to a local (its name may change: a harmless edit)
             lost = "anchor lost: %s::%s closure %d is no longer bound by a `let` (was `let %s`)" % (file, nm, ordn, c["let"])
-    if lost is None and closures and len(real_closures) != max(closures.keys()) + 1 and expected_closures is None:
+    if lost is None and closures and not vanished and len(real_closures) != max(closures.keys()) + 1 and expected_closures is None:
         # every contract in this code base annotates all closures of its function: a different count is a restructuring
         if len(closures) == max(closures.keys()) + 1:
             lost = "anchor lost: %s::%s has %d closures, contract annotates %d" % (file, nm, len(real_closures), len(closures))
@@ -853,6 +857,20 @@ def closures_in_contract_order(file, nm, real, b):
         except Exception:
             _SNAP = {}
     snap = _SNAP.get("%s::%s" % (file, nm))
+    if snap and len(real) < len(snap):
+        # closures were removed (e.g. `opt.map_or(d, |x| f(x))` unfolded into a `match`).  If every closure that is still there is,
+        # by content, one of the recorded ones, the contracts of the survivors apply and those of the vanished ones are dropped:
+        # the code that replaced a closure is verified inline like any other statement.
+        cur = [closure_fingerprint(c, b) for c in real]
+        assign, used = {}, set()
+        for j, fj in enumerate(cur):
+            ks = [k for k, fp in enumerate(snap) if fp == fj and k not in used]
+            if not ks:
+                return real, []            # a surviving closure also changed: ambiguous, handled as a lost anchor by the caller
+            assign[ks[0]] = j
+            used.add(ks[0])
+        out = [real[assign[k]] if k in assign else None for k in range(len(snap))]
+        return out, [(k, assign.get(k, -1)) for k in range(len(snap)) if assign.get(k, -1) != k]
     if not snap or len(snap) != len(real):
         return real, []
     cur = [closure_fingerprint(c, b) for c in real]
